@@ -443,8 +443,6 @@ Proof.
   unfold gpu_attach. intros H Hs HP.
   destruct (take_ok oks) as [kc oks2]. destruct kc; cbn [negb] in H;
     [|inversion H; subst; split; [now apply Bal_nil|eauto]].
-  match type of H with (if ?b then _ else _) = _ => destruct b end;
-    [inversion H; subst; split; [now apply Bal_nil|eauto]|].
   set (p := pages (w32 (w32 (w * h) * 4))) in *.
   destruct (N.eqb_spec a 0) as [Ha|Ha].
   { inversion H; subst. split; [|eauto]. eapply Bal_cons; [apply Bal_alloc_refused|now apply Bal_nil]. }
@@ -466,6 +464,7 @@ Proof.
   destruct (get_slot 0 atoms) as [old|] eqn:Hs; [|inversion H; subst; now apply Bal_nil].
   destruct (if setup then take_ok oks else (true, oks)) as [k0 oks0].
   destruct k0; cbn [negb] in H; [|inversion H; subst; now apply Bal_nil].
+  destruct ((w * h * 4 =? 0) || (two32 <=? w * h * 4)); [inversion H; subst; now apply Bal_nil|].
   destruct (gpu_teardown old oks0 atoms) as [[[kt oks1] atoms1] ev1] eqn:Et.
   destruct (gpu_teardown_bal _ _ _ _ _ _ _ L Et Hs HP) as [HB Hs1].
   destruct kt; cbn [negb] in H; [|inversion H; subst; exact HB].
@@ -1164,7 +1163,6 @@ Lemma gpu_attach_qui resets md w h oks a v atoms a' o ev m :
 Proof.
   unfold gpu_attach. intros H HF Hfr.
   destruct (take_ok oks) as [kc oks2]. destruct kc; cbn [negb] in H; [|inversion H; subst; auto].
-  match type of H with (if ?b then _ else _) = _ => destruct b end; [inversion H; subst; auto|].
   set (p := pages (w32 (w32 (w * h) * 4))) in *.
   destruct (a =? 0); [inversion H; subst; auto|].
   assert (Hfail : qui_run resets [TAlloc p DIR_TO_DEV a v; TDealloc a v p] m = Some m).
@@ -1191,6 +1189,7 @@ Proof.
     unfold gpu_res in E. destruct (get_slot 0 atoms) as [old|] eqn:Hs; [|inversion E; subst; exists m; auto].
     destruct (if setup then take_ok oks else (true, oks)) as [k0 oks0].
     destruct k0; cbn [negb] in E; [|inversion E; subst; exists m; auto].
+    destruct ((w * h * 4 =? 0) || (two32 <=? w * h * 4)); [inversion E; subst; exists m; auto|].
     destruct (gpu_teardown old oks0 atoms) as [[[kt oks1] atoms1] ev1] eqn:Et.
     destruct (gpu_teardown_qui resets _ _ _ _ _ _ _ m Et Hs HF) as (Q1 & F1 & E1).
     destruct kt; cbn [negb] in E; [|inversion E; subst; exists m; auto].
